@@ -775,6 +775,15 @@ impl Kanata {
                 return ret;
             }
             KeyValue::Tap => {
+                // E.g. a notch of the mouse wheel. It is input like a press and release.
+                if let Some((macro_id, recorded_macro)) = record_press(
+                    &mut self.dynamic_macro_record_state,
+                    event.code,
+                    self.dynamic_macro_max_presses,
+                ) {
+                    self.dynamic_macros.insert(macro_id, recorded_macro);
+                }
+                record_release(&mut self.dynamic_macro_record_state, event.code);
                 self.layout.bm().event(Event::Press(0, evc));
                 self.layout.bm().event(Event::Release(0, evc));
                 return Ok(());
